@@ -22,6 +22,10 @@ unique names; every atom carries its ground truth:
   virt      a derived class re-declaring an inherited virtual: base declaration section x
             derived section x 8 inheritance shapes x const/mismatch x pure; the method must
             be recorded for the class or for a base the database lists for it
+  cov       a re-declared virtual with a covariant return type (pointer, reference, two
+            levels, const-qualified, less cv-qualified) x `virtual` repeated or not x pure
+            or not x {single public base, second base, base version merely public};
+            whether it overrides (and whether the derived class is abstract) from g++
   member    one data member x type {int, const int, int*, const int*, int* const, enum,
             struct, struct*, const struct, array, reference} x typedef depth 0..3 x
             static/non-static x with/without initializer; getter/setter roles against
@@ -486,6 +490,11 @@ def judge(atom, o, cidx, same_ptr):
             tr = atom.truth(same_ptr)
         except KeyError as e:
             raise HarnessError("g++ probe has no answer for %s" % (e,))
+    elif isinstance(atom, hg.CovAtom):
+        try:
+            tr = atom.truth(same_ptr)
+        except KeyError as e:
+            raise HarnessError("g++ probe has no answer for covariant atom %s" % (e,))
     elif isinstance(atom, hg.MemberAtom):
         try:
             tr = atom.truth(same_ptr)
@@ -545,6 +554,7 @@ def make_atoms(tier):
     fam["comment"] = [hg.CommentAtom(pfx("k"), *x) for x in hg.comment_space(tier)]
     fam["virt"] = [hg.VirtAtom(pfx("v"), *x) for x in hg.virt_space(tier)]
     fam["member"] = [hg.MemberAtom(pfx("d"), *x) for x in hg.member_space(tier)]
+    fam["cov"] = [hg.CovAtom(pfx("w"), *x) for x in hg.cov_space(tier)]
     return fam
 
 
@@ -582,6 +592,11 @@ def gxx_probe(b, atoms, rundir):
         for line in _compile_run(hg.member_probe_source(mem, "h.h"), "probe_mem", rundir).splitlines():
             pfx, v = line.split()
             out[pfx] = v == "1"
+    cov = [a for a in atoms if isinstance(a, hg.CovAtom)]
+    if cov:
+        for line in _compile_run(hg.cov_probe_source(cov, "h.h"), "probe_cov", rundir).splitlines():
+            pfx, v = line.split()
+            out[pfx] = v == "1"
     return out
 
 
@@ -617,7 +632,7 @@ def main():
         n = size.get(name, 150)
         for i in range(0, len(atoms), n):
             batches.append((name, i // n, "c", atoms[i:i + n]))
-    for name in ("sig", "op", "inh", "prop", "virt", "member"):
+    for name in ("sig", "op", "inh", "prop", "virt", "member", "cov"):
         atoms = fam.get(name, [])
         n = size.get(name, 150)
         sub = atoms if ck.tier == "thorough" or name != "sig" else atoms[::2]
